@@ -461,4 +461,131 @@ theorem reachable_store_shape (steps : List Step) (hok : StepsTyped steps) :
 example : WellTyped (realCtx [] 0) ⟨Store.empty, none, 12, default⟩
     ⟨.activate (some "1"), none, .ok ""⟩ := by simp [WellTyped]
 
+/-! ## Executable well-typedness (used by the driver: every request the correspondence sends is checked) -/
+
+def valOkB (c : Ctx) (name : String) (v : AVal) : Bool :=
+  (match inspected.lookup name with | some k => v.kind == k | none => true) &&
+  (match v with | .int n => decide (0 ≤ n) | _ => true) &&
+  (match v with
+   | .other => (match c.rule? name with | some r => r.multivalued | none => true)
+   | _ => true)
+
+theorem valOkB_sound {c : Ctx} {name : String} {v : AVal} (h : valOkB c name v = true) : ValOk c name v := by
+  simp only [valOkB, Bool.and_eq_true] at h
+  obtain ⟨⟨h1, h2⟩, h3⟩ := h
+  refine ⟨?_, ?_, ?_⟩
+  · intro k hk; rw [hk] at h1; simpa using h1
+  · cases v <;> simp_all [AVal.nonneg]
+  · intro hv r hr; subst hv; simp only [hr] at h3; exact h3
+
+def templateOkB (c : Ctx) : Option Template → Bool
+  | none => true
+  | some t => t.attrs.all (fun a => valOkB c a.name a.value)
+
+theorem templateOkB_sound {c : Ctx} {t : Option Template} (h : templateOkB c t = true) : TemplateOk? c t := by
+  cases t with
+  | none => trivial
+  | some t =>
+    intro a ha
+    exact valOkB_sound (List.all_eq_true.mp h a ha)
+
+def attrOkB (c : Ctx) : Option TAttr → Bool
+  | none => true
+  | some a => valOkB c a.name a.value
+
+def fitsCreateB (c : Ctx) (ver : Nat) (tmpl : Option Template) : Crypto → Bool
+  | .ok token =>
+    match processTemplate? c ver tmpl with
+    | .ok d => (match reqLen d "" with | .ok len => hexBytes token * 8 == len | .error _ => true)
+    | .error _ => true
+  | .kmipError _ => true
+  | _ => false
+
+theorem reqLen_msg {d : AttrDict} {m1 m2 : String} {len : Nat} (h : reqLen d m1 = .ok len) : reqLen d m2 = .ok len := by
+  unfold reqLen at *
+  cases hg : d.get "Cryptographic Length" with
+  | none => rw [hg] at h; cases h
+  | some col =>
+    rw [hg] at h
+    cases col with
+    | multi vs => cases h
+    | single v => cases v <;> first | exact h | cases h
+
+theorem fitsCreateB_sound {c : Ctx} {ver : Nat} {tmpl : Option Template} {cr : Crypto}
+    (h : fitsCreateB c ver tmpl cr = true) : cr.FitsCreate c ver tmpl := by
+  cases cr with
+  | ok token =>
+    refine ⟨trivial, ?_⟩
+    intro tk d len msg htk hd hlen
+    cases htk
+    simp only [fitsCreateB, hd, reqLen_msg (m2 := "") hlen, beq_iff_eq] at h
+    exact h
+  | kmipError r => exact ⟨trivial, fun _ _ _ _ h => by cases h⟩
+  | _ => simp [fitsCreateB] at h
+
+def cryptoSaneB : Crypto → Bool
+  | .internal => false
+  | _ => true
+
+def wellTypedB (c : Ctx) (e : Engine) (it : Item) : Bool :=
+  match it.payload with
+  | .create _ t => templateOkB c t && fitsCreateB c e.version t it.crypto
+  | .createKeyPair cm pr pu => templateOkB c cm && templateOkB c pr && templateOkB c pu &&
+      (match it.crypto with | .ok2 .. => true | .kmipError _ => true | _ => false)
+  | .register _ t _ => templateOkB c t
+  | .deriveKey _ us t _ _ => templateOkB c t && !us.isEmpty &&
+      (match it.crypto with | .ok _ => true | .kmipError _ => true | _ => false)
+  | .locate _ _ as => as.all (fun a => valOkB c a.name a.value)
+  | .get _ _ _ w => w.isNone || (match it.crypto with | .ok _ => true | .kmipError _ => true | _ => false)
+  | .query fs => !fs.isEmpty
+  | .encrypt .. | .decrypt .. | .sign .. | .signatureVerify .. | .mac .. =>
+      (match it.crypto with | .ok _ => true | .verdict _ => true | .kmipError _ => true | _ => false)
+  | .setAttribute _ a => valOkB c a.name a.value
+  | .modifyAttribute _ a cu nw =>
+      (if e.version ≥ 20 then nw.isSome && attrOkB c nw else a.isSome && attrOkB c a) && attrOkB c cu
+  | .deleteAttribute _ _ _ cu _ => attrOkB c cu
+  | _ => true
+
+theorem attrOkB_sound {c : Ctx} {a : Option TAttr} (h : attrOkB c a = true) :
+    ∀ x, a = some x → ValOk c x.name x.value := by
+  intro x hx; subst hx; exact valOkB_sound h
+
+/-- the executable check implies the hypothesis of `no_internal_error` -/
+theorem wellTypedB_sound {c : Ctx} {e : Engine} {it : Item} (h : wellTypedB c e it = true) : WellTyped c e it := by
+  obtain ⟨pl, bid, cr⟩ := it
+  cases pl <;> simp only [wellTypedB, WellTyped, Bool.and_eq_true, Bool.or_eq_true] at h ⊢
+  case create ot t => exact ⟨templateOkB_sound h.1, fitsCreateB_sound h.2⟩
+  case createKeyPair cm pr pu =>
+    refine ⟨templateOkB_sound h.1.1.1, templateOkB_sound h.1.1.2, templateOkB_sound h.1.2, ?_⟩
+    cases cr <;> simp_all [Crypto.IsPair]
+  case register ot t o => exact templateOkB_sound h
+  case deriveKey ot us t hd dl =>
+    refine ⟨templateOkB_sound h.1.1, ?_, ?_⟩
+    · intro hn; subst hn; simp at h
+    · cases cr <;> simp_all [Crypto.IsBytes]
+  case locate mx off as => intro a ha; exact valOkB_sound (List.all_eq_true.mp h a ha)
+  case get u f cp w =>
+    rcases h with h | h
+    · left; simpa using h
+    · right; cases cr <;> simp_all [Crypto.Token]
+  case query fs => intro hn; subst hn; simp at h
+  case encrypt u p => cases cr <;> simp_all [Crypto.Sane]
+  case decrypt u p => cases cr <;> simp_all [Crypto.Sane]
+  case sign u p => cases cr <;> simp_all [Crypto.Sane]
+  case signatureVerify u p => cases cr <;> simp_all [Crypto.Sane]
+  case mac u a d => cases cr <;> simp_all [Crypto.Sane]
+  case setAttribute u a => exact valOkB_sound h
+  case modifyAttribute u a cu nw =>
+    obtain ⟨h1, h2⟩ := h
+    refine ⟨?_, ?_, attrOkB_sound h2⟩
+    · intro hv
+      simp only [hv, if_true, Bool.and_eq_true] at h1
+      obtain ⟨n, hn⟩ := Option.isSome_iff_exists.mp h1.1
+      exact ⟨n, hn, attrOkB_sound h1.2 n hn⟩
+    · intro hv
+      simp only [hv, if_false, Bool.and_eq_true] at h1
+      obtain ⟨n, hn⟩ := Option.isSome_iff_exists.mp h1.1
+      exact ⟨n, hn, attrOkB_sound h1.2 n hn⟩
+  case deleteAttribute u n i cu r => exact attrOkB_sound h
+
 end Kmip.C13
